@@ -112,6 +112,29 @@ def run(ctx) -> Report:
             got = prod._partition("t", None, None, b"v", None, b"v")
             out.append({"kind": "unkeyed", "all": list(set(allp)), "avail": list(set(avail)), "got": got})
             meta.append("producer:unkeyed:avail=" + ("none" if not avail else "some"))
+        # ... and on the REAL ClusterMetadata fed by MetadataResponses that list the partitions in arbitrary order
+        # (brokers do not promise ascending ids), refreshed between sends with changing leaders
+        from aiokafka.cluster import ClusterMetadata
+        from aiokafka.protocol.metadata import MetadataResponse_v1
+        for _ in range(120 if ctx.quick else 1200):
+            n = rng.randrange(1, 40)
+            md = ClusterMetadata(metadata_max_age_ms=10**9)
+            prod._metadata = md
+            for _round in range(3):
+                ids = list(range(n))
+                rng.shuffle(ids)
+                avail = set(rng.sample(range(n), rng.randrange(0, n + 1)))
+                parts = [(0 if p in avail else 5, p, (1 if p in avail else -1), [1], [1]) for p in ids]
+                md.update_metadata(MetadataResponse_v1(brokers=[(1, "h", 9092, None)], controller_id=1,
+                                                       topics=[(0, "t", False, parts)]))
+                k = bytes(rng.randrange(256) for _ in range(rng.randrange(0, 24)))
+                got = prod._partition("t", None, k, b"v", k, b"v")
+                out.append({"kind": "keyed", "key": list(k), "all": list(range(n)), "avail": sorted(avail), "got": got})
+                meta.append("producer:real-metadata:keyed")
+                random.seed(rng.randrange(1 << 30))
+                got = prod._partition("t", None, None, b"v", None, b"v")
+                out.append({"kind": "unkeyed", "all": list(range(n)), "avail": sorted(avail), "got": got})
+                meta.append("producer:real-metadata:unkeyed:avail=" + ("none" if not avail else "some"))
         return out
 
     cases += asyncio.run(via_producer())
